@@ -13,3 +13,4 @@ import ExaModel.Props.C10
 #print axioms Exa.Props.C10.subcode_names_rfc
 #print axioms Exa.Props.C10.code_names_rfc
 #print axioms Exa.Props.C10.refused_incoming_is_cease
+#print axioms Exa.Props.C10.accepted_trace_silent_after_notification
